@@ -129,6 +129,7 @@ void pmc_run(const char* config) {
     if (sscanf(config, "cap%d:%c%d:%c%31s", &cap, &wk, &L, &rk, rest) < 4) pmc_broken("bad config %s", config);
     w.cap = cap; w.L = L; w.wkind = wk; w.rkind = rk;
     w.et = strstr(rest, ":et"); if (w.et) *strstr(rest, ":et") = 0;
+    bool ng = strstr(rest, ":ng"); if (ng) *strstr(rest, ":ng") = 0;     // :ng = the epoll-ng master engine (one epoll per direction, nested in an engine epoll)
     w.timeout = strstr(rest, ":t"); w.duplex = strstr(rest, ":d"); w.two = strstr(rest, ":2");
     if (const char* h = strstr(rest, ":h")) w.shut_at = atoi(h + 2);
     int many = 0; if (const char* m = strstr(rest, ":n")) many = atoi(m + 2);      // :n<k> = k connections on one engine (more than one 16-event batch)
@@ -137,7 +138,7 @@ void pmc_run(const char* config) {
     simk::on_stuck = stuck;
     sv::init();
     reset_master_event_engine_default();
-    fd_events_init(new_epoll_master_engine());          // the REAL engine, on simulated epoll
+    fd_events_init(ng ? new_epoll_ng_master_engine() : new_epoll_master_engine());          // the REAL engine, on simulated epoll
     int nconn = many ? many : w.two ? 2 : 1; w.conns.resize(nconn);
     if (w.et) et_poller_init();
     for (auto& c : w.conns) { socketpair(AF_UNIX, SOCK_STREAM, 0, c.fd); for (int e = 0; e < 2; e++) c.s[e] = w.et ? new ETKernelSocketStream(c.fd[e]) : new KernelSocketStream(c.fd[e]); }
@@ -181,6 +182,11 @@ static const PmcConfig CFG[] = {
     {"cap2:s4:c:d:et", 3, {0,0}, {0,0}, {1,2}, {0,0}, "edge-triggered, both directions of each descriptor awaited at once"},
     {"cap2:v6:x:2:et", 3, {0,0}, {0,0}, {1,2}, {0,0}, "edge-triggered, two connections in one poller"},
     {"cap2:w5:r:h3:et",3, {0,0}, {0,0}, {1,2}, {0,0}, "edge-triggered, peer shutdown (EOF edge)"},
+    {"cap2:w5:r:ng",   3, {0,0}, {0,0}, {2,3}, {0,0}, "epoll-ng master engine: per-direction pollers nested in an engine epoll"},
+    {"cap2:s4:c:d:ng", 3, {0,0}, {0,0}, {2,2}, {0,0}, "epoll-ng, full duplex: the same descriptor registered in the read and the write poller at once"},
+    {"cap2:s3:c:2:ng", 3, {0,0}, {0,0}, {2,2}, {0,0}, "epoll-ng, two connections"},
+    {"cap2:w4:c:t:d:ng",3,{0,0}, {1,1}, {1,2}, {2,2}, "epoll-ng, stream timeout on one reader with the other direction busy"},
+    {"cap2:w5:r:h3:ng",3, {0,0}, {0,0}, {2,3}, {0,0}, "epoll-ng, peer shutdown (RDHUP on the read poller)"},
     {"cap2:w1:r:n17",  3, {0,0}, {0,0}, {1,2}, {0,0}, "17 connections become readable together: more than one 16-event batch of the engine"},
     {"cap2:s2:c:d:n9", 3, {0,0}, {0,0}, {1,1}, {0,0}, "9 full-duplex connections: 18+ events at once"},
     {"cap2:w1:r:n17:et",2,{0,0}, {0,0}, {1,1}, {0,0}, ""},
